@@ -122,6 +122,7 @@ static uint64_t rnd()
 static void one_case(long idx)
 {
   st_cases++;
+  wrap_reset_case();  // the interposition layer keeps a bounded table of children per case
   long nout = static_cast<long>(rnd() % 5 == 0 ? rnd() % 300000 : rnd() % 9000);
   long nerr = static_cast<long>(rnd() % 4 == 0 ? 0 : rnd() % 6000);
   int code = static_cast<int>(rnd() % 256);
